@@ -72,16 +72,22 @@ def run_perm(args):
     with fordrun.tempdir() as d:
         fordrun.write_files(d, files)
         fixed = [pathlib.Path(d) / o for o in order]
-        orig = fp.find_all_files
-        fp.find_all_files = lambda s: list(fixed)
-        try:
-            ok, out, err = site.run_inproc(d, META)
-        finally:
-            fp.find_all_files = orig
+        from vlib import pipetrace
+        with pipetrace.recording() as ev:
+            pipetrace.STATE["find_override"] = lambda s: list(fixed)      # the harness plays the file system's enumeration order
+            try:
+                ok, out, err = site.run_inproc(d, META)
+            finally:
+                pipetrace.STATE["find_override"] = None
+        events = list(ev)
+        for e in events:
+            if e["ev"] == "discover":
+                e["files"] = [os.path.relpath(f, d) for f in e["files"]]
         if not ok:
             return {"_error": f"{type(err).__name__}: {err}"}
         h = site.tree_hashes(os.path.join(d, "doc"))
         # the temporary directory name is part of no output file except tipuesearch/absolute links: normalise nothing, compare as is
+        h["_events"] = events
         return h
 
 
@@ -108,6 +114,41 @@ def compare(ref, other):
     if "_error" in ref or "_error" in other:
         return ["_error: " + (ref.get("_error") or other.get("_error"))]
     return sorted(set(ref) ^ set(other)) + sorted(k for k in set(ref) & set(other) if ref[k] != other[k])
+
+
+def pipeline_traces(ck, traces):
+    """The behaviour (not only the output) is independent of the enumeration order, and is a behaviour of spec/Pipeline.tla."""
+    from vlib import pipebind
+    from concurrent.futures import ThreadPoolExecutor
+    tovalidate = []
+    for n, runs in traces.items():
+        runs = [(o, e) for o, e in runs if e]
+        if not runs:
+            continue
+        ref_order, ref = runs[0]
+        ref_lines = json.dumps(pipebind.constants_and_trace(ref)[1], sort_keys=True)
+        tovalidate.append((n, ref_order, ref))
+        for order, ev in runs[1:]:
+            if json.dumps(pipebind.constants_and_trace(ev)[1], sort_keys=True) != ref_lines:
+                tovalidate.append((n, order, ev))       # let the trace spec say what differs
+    with ThreadPoolExecutor(max_workers=8) as ex:
+        verdicts = list(ex.map(lambda t: pipebind.validate(t[2]), tovalidate))
+    seen_ref = set()
+    for (n, order, ev), v in zip(tovalidate, verdicts):
+        first = n not in seen_ref
+        seen_ref.add(n)
+        if not v["accepted"]:
+            detail = (f"project {n}, enumeration order {order}: the run is not a behaviour of Pipeline: event {v['consumed'] + 1} of {v['events']} "
+                      f"({v['next_event']}): {v['why']}")
+            if v["owner"] == "C12":
+                ck.violation("pipeline-trace", {"project": n, "order": order}, observed=v["next_event"], detail=detail)
+            else:
+                raise tlc.TLCFailure(detail + " - not a C12 clause: the as-built stage model of spec/Pipeline.tla no longer describes the code")
+        elif not first:
+            ck.violation("behaviour-differs", {"project": n, "order": order},
+                         detail=f"project {n}: the sequence of pipeline steps (parse / correlate / name / write order) differs between enumeration orders {traces[n][0][0]} and {order}")
+    ck.coverage["traces_validated_against_impl"] = len(verdicts)
+    ck.coverage["pipeline_runs_compared"] = sum(len(r) for r in traces.values())
 
 
 def run(tier, seed, ck: Check):
@@ -143,8 +184,11 @@ def run(tier, seed, ck: Check):
             jobs.append(("perm", n, (n, list(p))))
     res = pool.pmap(run_perm, [j[2] for j in jobs], chunksize=1)
     byproj = {}
+    traces = {}
     for (kind, n, arg), h in zip(jobs, res):
+        traces.setdefault(n, []).append((arg[1], h.pop("_events", None)))
         byproj.setdefault(n, []).append((arg[1], h))
+    pipeline_traces(ck, traces)
     for n, runs in byproj.items():
         ref_order, ref = runs[0]
         for order, h in runs[1:]:
